@@ -3,6 +3,7 @@ package scen
 import (
 	"fmt"
 	"strings"
+	"sync/atomic"
 	"time"
 
 	"github.com/vektah/gqlparser/v2/ast"
@@ -194,7 +195,7 @@ func scenCCH(s *sched.Sim, cfg Config, res *Result) {
 		errs []string
 		raw  string
 	}
-	runHistory := func(env *fedEnv, who string, out *[][]answer, done *bool) {
+	runHistory := func(env *fedEnv, who string, out *[][]answer, done *atomic.Bool) {
 		s.Go(who, func() {
 			for si, st := range steps {
 				if st.gapNs > 0 {
@@ -222,15 +223,15 @@ func scenCCH(s *sched.Sim, cfg Config, res *Result) {
 					}
 				case "overlap":
 					rs := make([]*clientResp, 2)
-					n := 0
+					var n atomic.Int32
 					for j := 0; j < 2; j++ {
 						j := j
 						s.Go(fmt.Sprintf("%s-%d-o%d", who, si, j), func() {
 							rs[j] = env.post(fmt.Sprintf("%s-%d-o%d", who, si, j), []clientReq{pool[st.reqs[j]].req}, false)
-							n++
+							n.Add(1)
 						})
 					}
-					for n < 2 {
+					for n.Load() < 2 {
 						s.Park("wait-overlap")
 					}
 					for j := 0; j < 2; j++ {
@@ -240,16 +241,16 @@ func scenCCH(s *sched.Sim, cfg Config, res *Result) {
 				}
 				*out = append(*out, as)
 			}
-			*done = true
+			done.Store(true)
 		})
 	}
 	var outC, outP [][]answer
-	var doneC, doneP bool
+	var doneC, doneP atomic.Bool
 	runHistory(cached, "cached", &outC, &doneC)
 	runHistory(plain, "plain", &outP, &doneP)
-	end := s.Run(func() bool { return doneC && doneP && len(s.Alive()) == 0 }, 400000, 3*time.Hour)
+	end := s.Run(func() bool { return doneC.Load() && doneP.Load() && len(s.Alive()) == 0 }, 400000, 3*time.Hour)
 	if end == sched.Hang {
-		res.Violate(prop+"/hang", "cached=%v plain=%v parked=%v", doneC, doneP, s.ParkedLabels())
+		res.Violate(prop+"/hang", "cached=%v plain=%v parked=%v", doneC.Load(), doneP.Load(), s.ParkedLabels())
 		return
 	} else if end == sched.StepBudget {
 		res.Verdict, res.Anomaly = "anomaly", "step budget exhausted in CCH"
